@@ -403,6 +403,21 @@ def synth_isolated(desc, n, strat, timeout=60):
     return ("died", p.returncode, (p.stdout + p.stderr)[-300:])
 
 
+def synth_sequence(jobs, timeout=90):
+    """Several synthesize_trials calls one after the other in ONE child process: list of ('ok', exps) | ('exc', name, msg),
+    or None when the child died / timed out."""
+    try:
+        p = subprocess.run([sys.executable, "-m", "harness.worker"], input=json.dumps({"jobs": jobs}), capture_output=True,
+                           text=True, timeout=timeout, cwd=os.path.dirname(os.path.dirname(os.path.abspath(__file__))))
+    except subprocess.TimeoutExpired:
+        return None
+    for line in p.stdout.splitlines():
+        if line.startswith("@@RESULT@@"):
+            out = json.loads(line[len("@@RESULT@@"):])
+            return [("ok", r["ok"]) if "ok" in r else ("exc", r["exc"], r["msg"]) for r in out["results"]]
+    return None
+
+
 def random_space(block):
     """Number of candidate keys RandomGen would have to walk through to exhaust the design (None if unknown)."""
     from sweetpea._internal.sampling_strategy.random import UCSolutionEnumerator
